@@ -606,7 +606,7 @@ fn lex_char(
                 kind: LexErrorKind::ExpectedCloseQuote {
                     position: next_index,
                 },
-                span: span(l, next_index, next_index + string.len()),
+                span: span_until(l, next_index),
             },
         );
 
